@@ -2,8 +2,8 @@ package doubles
 
 import (
 	"context"
-	"reflect"
 	"errors"
+	"reflect"
 	"sync"
 	"time"
 
@@ -24,9 +24,10 @@ type Network struct {
 
 type Delivery struct {
 	Delay     time.Duration
-	Copies    int  // how many times the message is put into the receiver's channel (0 = lost)
-	FailAfter bool // the sender sees an error although the message was delivered (lost acknowledgement)
-	Fail      bool // the sender sees an error and nothing is delivered
+	Copies    int   // how many times the message is put into the receiver's channel (0 = lost)
+	FailAfter bool  // the sender sees an error although the message was delivered (lost acknowledgement)
+	Fail      bool  // the sender sees an error and nothing is delivered
+	Err       error // the error the sender sees when Fail is set (default: a plain error)
 }
 
 func NewNetwork() *Network {
@@ -70,6 +71,9 @@ func (n *Network) request(ctx context.Context, from, to []byte, m proto.Message)
 		d = pol(from, to, m, attempt)
 	}
 	if d.Fail {
+		if d.Err != nil {
+			return p2p.P2PMessage{}, d.Err
+		}
 		return p2p.P2PMessage{}, errors.New("injected send failure")
 	}
 	if d.Delay > 0 {
